@@ -3,7 +3,7 @@
     A body is built as: [prefix] u8 parameters, the value under test, (for some scenarios a u32 after
     it,) a trailing u8 0xA5. It is then read back with MessageBodyParser::get::<T>() / get_param(). *)
 From RB Require Import Base.Prelude Sig.Types Sig.Parser Sig.Validator Sig.Iter Wire.Bytes Wire.Align Wire.Text Wire.Value
-  Wire.SpecEnc Wire.Marshal Wire.Decode Wire.Unmarshal Wire.HasSig Wire.Ops Wire.Derive Wire.Enums.
+  Wire.SpecEnc Wire.Marshal Wire.Decode Wire.Unmarshal Wire.HasSig Wire.Ops Wire.Derive Wire.Enums Wire.EnumsIn.
 
 (* the tuple type with the same fields, as a type of the extended algebra *)
 Fixpoint detup (r : rty) : rty :=
@@ -146,9 +146,6 @@ Definition op_hassig (be : bool) (r other : rty) (v : val) : enc * dres * dres *
     dbus_variant_var! (M) and a Param variant (P); every encoding read by every API *)
 Inductive eapi := ApiV | ApiED | ApiS | ApiM | ApiEP.
 
-(* the macro enums' case types: several fields are a tuple *)
-Definition macro_case (k : ecase) : rty := match k with CSingle r => r | CFields _ rs => RTuple rs end.
-
 Definition en_enc (api : eapi) (be : bool) (prefix : nat) (k : ecase) (p : epay) : enc :=
   let t := case_ty k in
   let v := payload_val p in
@@ -235,3 +232,128 @@ Definition op_outside (be : bool) (prefix : nat) (cs : list ecase) (out : rty) (
      eo_d_next := dres_of be bs bf gn; eo_d_next_after := follow be bs bf gn;
      eo_s := edres_of be bs bf cs (Some out) gs; eo_s_after := follow be bs bf gs;
      eo_m := edres_of be bs bf cs (Some out) gm; eo_m_after := follow be bs bf gm |}.
+
+(** ** EC: enums (and params::Variant) in element position. The container type is given with the derived enum at its
+    enum leaves; [retarget] puts another generator, or params::Variant, there. The value is given as the D-Bus value
+    (variants at the enum leaves); [to_cval] finds the case of each variant: the first one of that type. *)
+Fixpoint retarget (g : option egen) (x : cty) : cty :=
+  match x with
+  | CPlain r => CPlain r
+  | CEnum _ cs => match g with Some g' => CEnum g' cs | None => CPVar end
+  | CPVar => CPVar
+  | CVec y => CVec (retarget g y)
+  | CMap k y => CMap k (retarget g y)
+  | CTuple ys => CTuple (map (retarget g) ys)
+  | CDerived ys => CDerived (map (retarget g) ys)
+  end.
+
+Fixpoint find_case (cs : list ecase) (i : nat) (t : ty) : option (nat * ecase) :=
+  match cs with
+  | [] => None
+  | k :: r => if ty_eqb (case_ty k) t then Some (i, k) else find_case r (S i) t
+  end.
+
+Fixpoint to_cval (x : cty) (v : val) {struct x} : cval :=
+  match x, v with
+  | CEnum _ cs, VVariant t w =>
+      match find_case cs 0 t with
+      | Some (i, CSingle _) => XEnum i (PSingle w)
+      | Some (i, CFields _ _) => XEnum i (PFields (match w with VStruct ws => ws | _ => [] end))
+      | None => XPlain v
+      end
+  | CPVar, VVariant t w => XPVar t w
+  | CVec y, VArray _ l => XList (map (to_cval y) l)
+  | CMap _ y, VDict _ _ l => XMap (map (fun kv => (fst kv, to_cval y (snd kv))) l)
+  | CTuple ys, VStruct l => XList (zipwith (fun y w => to_cval y w) ys l)
+  | CDerived ys, VStruct l => XList (zipwith (fun y w => to_cval y w) ys l)
+  | _, _ => XPlain v
+  end.
+
+(* has_sig: every enum's Signature::has_sig is starts_with('v'), like the Variant wrapper's *)
+Fixpoint cty_rty (x : cty) : rty :=
+  match x with
+  | CPlain r => r
+  | CEnum _ _ => RVar (RBase BByte)
+  | CPVar => RVar (RBase BByte)
+  | CVec y => RArray (cty_rty y)
+  | CMap k y => RDict k (cty_rty y)
+  | CTuple ys => RTuple (map cty_rty ys)
+  | CDerived ys => RDerived (map cty_rty ys)
+  end.
+
+(* a decoded tree as a D-Bus value (None: it holds a Catchall) *)
+Definition omap {A B} (f : A -> B) (o : option A) : option B := match o with Some a => Some (f a) | None => None end.
+Definition ocons {A} (a : option A) (r : option (list A)) : option (list A) :=
+  match a, r with Some v, Some vs => Some (v :: vs) | _, _ => None end.
+Fixpoint cres_val (x : cty) (r : cres) {struct x} : option val :=
+  match x, r with
+  | CPlain _, RPlain v => Some v
+  | CPVar, RPlain v => Some v
+  | CEnum _ cs, REnum (ECase i v) => match nth_error cs i with Some k => Some (VVariant (case_ty k) v) | None => None end
+  | CVec y, RList l =>
+      omap (VArray (csig y))
+           ((fix all (l : list cres) : option (list val) :=
+               match l with [] => Some [] | a :: r => ocons (cres_val y a) (all r) end) l)
+  | CMap k y, RMap l =>
+      omap (VDict k (csig y))
+           ((fix all (l : list (val * cres)) : option (list (val * val)) :=
+               match l with
+               | [] => Some []
+               | (kv, a) :: r => ocons (omap (fun v => (kv, v)) (cres_val y a)) (all r)
+               end) l)
+  | CTuple ys, RList l =>
+      omap VStruct
+           ((fix all (ys : list cty) (l : list cres) : option (list val) :=
+               match ys, l with
+               | [], [] => Some []
+               | y :: ys', a :: r => ocons (cres_val y a) (all ys' r)
+               | _, _ => None
+               end) ys l)
+  | CDerived ys, RList l =>
+      omap VStruct
+           ((fix all (ys : list cty) (l : list cres) : option (list val) :=
+               match ys, l with
+               | [], [] => Some []
+               | y :: ys', a :: r => ocons (cres_val y a) (all ys' r)
+               | _, _ => None
+               end) ys l)
+  | _, _ => None
+  end.
+
+Inductive capi := CApiD | CApiS | CApiM | CApiPV | CApiP.
+Definition capi_gen (a : capi) : option egen :=
+  match a with CApiD => Some GDerive | CApiS => Some GSigMacro | CApiM => Some GVarMacro | _ => None end.
+
+Definition ec_enc (a : capi) (be : bool) (prefix : nat) (x : cty) (v : val) : enc :=
+  match a with
+  | CApiP => push_after_prefix prefix (to_str (ty_of v)) (marshal_param_top be v)
+  | _ => let x' := retarget (capi_gen a) x in push_after_prefix prefix (to_str (csig x')) (marshal_c be x' (to_cval x' v))
+  end.
+
+(* result of reading a container: the value (None = a Catchall inside), trailer follows *)
+Inductive cdres := CDVal (v : option val) (trailer : bool) | CDWrongSig | CDEnd | CDErr | CDBad.
+
+Definition ec_dec (a : capi) (be : bool) (prefix : nat) (x : cty) (e : enc) : cdres :=
+  let e := push_trailer e in
+  let p := N.of_nat prefix in
+  let bs := e_sig e in let bf := e_buf e in
+  match a with
+  | CApiP => match dres_of be bs bf (get_dyn be bs bf p p) with
+             | DVal v t => CDVal (Some v) t | DWrongSig => CDWrongSig | DEnd => CDEnd | DErr => CDErr | DBad => CDBad
+             end
+  | _ =>
+      let x' := retarget (capi_gen a) x in
+      match get_gen (has_sig_r (cty_rty x')) (unmarshal_c be x') bs bf p p with
+      | Ok (GVal si bi r) => CDVal (cres_val x' r) (trailer_next be bs bf si bi)
+      | Ok GWrongSig => CDWrongSig
+      | Ok GEnd => CDEnd
+      | Ok GErr => CDErr
+      | _ => CDBad
+      end
+  end.
+
+Definition op_container (be : bool) (prefix : nat) (x : cty) (v : val) : list (capi * enc * list (capi * cdres)) :=
+  let apis := [CApiD; CApiS; CApiM; CApiPV; CApiP] in
+  map (fun a => let e := ec_enc a be prefix x v in
+                (a, e, if e_ok e then map (fun d => (d, ec_dec d be prefix x e)) apis else []))
+      apis.
